@@ -63,8 +63,10 @@ enum Pat {
     /// N tasks whose 0.5 s timeout is armed and resolved (cancelled) in the start instant and
     /// which then sleep to 1 s: the live timers sit behind cancelled ones in the module's timer queue
     SleepBehindCancelledTimer,
+    /// N tasks whose 0.5 s sleep was polled once (pending) and is then reset to 1 s
+    SleepResetToLater,
 }
-const PATS: [Pat; 22] = [
+const PATS: [Pat; 23] = [
     Pat::Sleepers,
     Pat::Chain,
     Pat::NotifyAll,
@@ -87,6 +89,7 @@ const PATS: [Pat; 22] = [
     Pat::SleepersThenShutdown,
     Pat::StartThenShutdown,
     Pat::SleepBehindCancelledTimer,
+    Pat::SleepResetToLater,
 ];
 
 #[derive(Clone, Copy, Debug, PartialEq, Eq)]
@@ -198,6 +201,23 @@ impl Module for Mo {
                     });
                     spawn_kind(k, async move {
                         let _ = tx.send(());
+                    });
+                }
+            }
+            Pat::SleepResetToLater => {
+                for i in 0..n {
+                    let l = self.log.clone();
+                    spawn_kind(k, async move {
+                        let s = sleep(Duration::from_millis(500));
+                        tokio::pin!(s);
+                        tokio::select! {
+                            biased;
+                            () = &mut s => {}
+                            () = std::future::ready(()) => {}
+                        }
+                        s.as_mut().reset(SimTime::now() + Duration::from_secs(1));
+                        s.await;
+                        l.lock().unwrap().push((i as u32, now()));
                     });
                 }
             }
@@ -598,7 +618,7 @@ impl Property for C06 {
                         Pat::NotifyThenShutdown | Pat::NotifyThenRestart | Pat::SleepersThenShutdown | Pat::StartThenShutdown => ctx.hit("shutdown_requested_in_the_event"),
                         Pat::StartStage => ctx.hit("start_stage_trigger"),
                         Pat::Sleepers => ctx.hit("timer_trigger"),
-                        Pat::SleepBehindCancelledTimer => ctx.hit("timer_behind_cancelled_timer"),
+                        Pat::SleepBehindCancelledTimer | Pat::SleepResetToLater => ctx.hit("timer_behind_cancelled_timer"),
                         Pat::NotifyAll => ctx.hit("message_trigger"),
                         Pat::ElementConsumes | Pat::ElementStartHook | Pat::ElementEndHook | Pat::ElementEndHookOnTimer | Pat::ElementEndHookOnStart => ctx.hit("processing_element_trigger"),
                         _ => {}
